@@ -29,10 +29,12 @@ theorem SameButPos.addCol (st : St) (n : Nat) : SameButPos st (addCol st n) := r
 theorem SameButPos.base {a b : St} (h : SameButPos a b) : b.base = a.base := by rw [h]
 theorem SameButPos.toks {a b : St} (h : SameButPos a b) : b.toks = a.toks := by rw [h]
 theorem SameButPos.ctx {a b : St} (h : SameButPos a b) : b.ctx = a.ctx := by rw [h]
+theorem SameButPos.contexts {a b : St} (h : SameButPos a b) : b.contexts = a.contexts := by rw [h]
+theorem SameButPos.bases {a b : St} (h : SameButPos a b) : b.bases = a.bases := by rw [h]
 theorem SameButPos.srcLen {E : Env} {a b : St} (h : SameButPos a b) : srcLen E b = srcLen E a := by
   unfold Lexer.srcLen; rw [h.base]
 theorem SameButPos.ext {E : Env} {a b : St} (h : SameButPos a b) (hb : a.base ≤ E.text.length) : Ext E a b :=
-  (Ext.refl hb).of_eq h.base h.toks
+  (Ext.refl hb).of_eq h.base h.toks h.contexts h.bases
 
 theorem walkCode_ok {E : Env} (n : Nat) : ∀ (i : Nat) (st : St), i + n ≤ srcLen E st →
     ∃ st', walkCode E n i st = .ok st' ∧ SameButPos st st' := by
